@@ -115,7 +115,9 @@ Dead == "ctx" \in DOMAIN cfg /\ cfg.ctx = "dead"
 WithCtx(r) == r @@ [mw |-> [j \in 1..Len(cfg.mw) |-> j], cp |-> cparams, sp |-> SParams,
                     addr |-> TRUE, tm |-> TRUE, live |-> ~Dead, prevdone |-> TRUE,
                     \* AuthenticatedUsername(ctx) is the user of the start-up packet, IsSuperUser(ctx) is never true
-                    au |-> (IF "user" \in DOMAIN cparams THEN cparams["user"] ELSE ""), su |-> FALSE]
+                    au |-> (IF "user" \in DOMAIN cparams THEN cparams["user"] ELSE ""), su |-> FALSE,
+                    \* what the password validator put into the context it returned is there for the whole session
+                    authv |-> (IF cfg.auth = "clear" /\ "user" \in DOMAIN cparams THEN cparams["user"] ELSE "")]
 
 EmitOne(alts) == \E e \in alts : emit' = e
 
